@@ -13,7 +13,7 @@ T={
  "C19":("exploration","runtime monitoring: response-id uniqueness monitor, query read-back of every id (per block, periodic, final) and block-to-block raw store diff (append-only)"),
 }
 NA={}
-FIXES=["82dca39 (C02 double-hop swap settlement)","4b78834 (C17 oracle Max of all-negative responses)"]
+FIXES=["82dca39 (C02 double-hop swap settlement)","4b78834 (C17 oracle Max of all-negative responses)","c092f06 (C17 oracle Avg overflow)"]
 checks=[]
 for p in props:
     i=p['id']
